@@ -91,9 +91,17 @@ class System:
         self.stepper = ea.PositionVerlet()
 
         # ---------------- IO objects (the IO layer of the statement)
-        self.io_flow = spu.EulerianFieldIO(
-            position_field=flow.position_field, eulerian_fields_dict={"vorticity": flow.vorticity_field, "velocity": flow.velocity_field}
-        )
+        if config.get("flow_io") == "plain":
+            # the generic IO class with its default real_dtype (float64), whatever the solver precision
+            self.io_flow = spu.IO(dim=dim)
+            pos = flow.position_field
+            origin = np.array([float(pos[dim - 1 - ax].min()) for ax in range(dim)])  # z-y-x ordering
+            self.io_flow.define_eulerian_grid(origin=origin, dx=np.full(dim, float(flow.dx)), grid_size=np.array(shape))
+            self.io_flow.add_as_eulerian_fields_for_io(vorticity=flow.vorticity_field, velocity=flow.velocity_field)
+        else:
+            self.io_flow = spu.EulerianFieldIO(
+                position_field=flow.position_field, eulerian_fields_dict={"vorticity": flow.vorticity_field, "velocity": flow.velocity_field}
+            )
         self.io_forcing = []
         for b in self.bodies:
             io = spu.IO(dim=dim, real_dtype=real_t)
